@@ -102,6 +102,8 @@ impl<T: Types> FlushWorker<T> {
 
     fn run(self) {
         let res = self.run_inner();
+        #[cfg(raft_log_verif)]
+        crate::verif::point("exit", res.is_err() as u64);
         if let Err(e) = res {
             log::error!("FlushWorker failed: {}", e);
         }
@@ -109,6 +111,8 @@ impl<T: Types> FlushWorker<T> {
 
     fn run_inner(mut self) -> Result<(), io::Error> {
         loop {
+            #[cfg(raft_log_verif)]
+            crate::verif::point("recv", 0);
             let req = self.rx.recv();
             let Ok(SeqRequest { seq, req }) = req else {
                 log::info!("FlushWorker input channel closed, quit");
@@ -116,8 +120,12 @@ impl<T: Types> FlushWorker<T> {
             };
 
             let WorkerRequest::Write(w) = req else {
+                #[cfg(raft_log_verif)]
+                crate::verif::point("recv_nf", seq);
                 self.handle_non_flush_request(req)?;
                 self.done_seq.store(seq, Ordering::Relaxed);
+                #[cfg(raft_log_verif)]
+                crate::verif::point("done", seq);
                 continue;
             };
 
@@ -129,17 +137,23 @@ impl<T: Types> FlushWorker<T> {
             batch.push(w);
             let mut max_seq = seq;
             let mut last_non_flush = None;
+            #[cfg(raft_log_verif)]
+            crate::verif::point("batch", 1);
 
             for seq_req in self.rx.try_iter().take(batch_size) {
                 if let WorkerRequest::Write(w) = seq_req.req {
                     max_seq = max_seq.max(seq_req.seq);
                     batch.push(w);
+                    #[cfg(raft_log_verif)]
+                    crate::verif::point("batch", batch.len() as u64);
                 } else {
                     last_non_flush = Some(seq_req);
                     break;
                 };
             }
 
+            #[cfg(raft_log_verif)]
+            crate::verif::point("batch_end", last_non_flush.is_some() as u64);
             debug!("batched write: {}", batch.len());
 
             {
@@ -195,6 +209,8 @@ impl<T: Types> FlushWorker<T> {
             }
 
             self.done_seq.store(max_seq, Ordering::Relaxed);
+            #[cfg(raft_log_verif)]
+            crate::verif::point("done", max_seq);
         }
     }
 
@@ -202,6 +218,12 @@ impl<T: Types> FlushWorker<T> {
         &mut self,
         req: WorkerRequest<T>,
     ) -> Result<(), io::Error> {
+        #[cfg(raft_log_verif)]
+        crate::verif::point("nf", match &req {
+            WorkerRequest::AppendFile(_) => 1,
+            WorkerRequest::RemoveChunks { .. } => 2,
+            _ => 3,
+        });
         match req {
             WorkerRequest::AppendFile(file_entry) => {
                 info!("FlushWorker: AppendFile: {}", file_entry);
@@ -250,6 +272,8 @@ impl<T: Types> FlushWorker<T> {
 
         let f = &mut files[0];
 
+        #[cfg(raft_log_verif)]
+        crate::verif::point("set_ev", 0);
         {
             let mut cache = self.cache.write().unwrap();
             cache.set_last_evictable(f.prev_last_log_id.clone());
